@@ -308,7 +308,7 @@ def gen_zone(rng):
     return dict(kind="synthetic", mode=mode, trans=trans, idx=idx,
                 types=[list(x) for x in types], isstd=isstd, isgmt=isgmt,
                 leaps=[list(x) for x in leaps],
-                version=rng.choice([1, 2, 2]))
+                version=rng.choice([1, 2, 2, 3, 4]))
 
 
 LOADS = ["gettz_name", "gettz_second", "gettz_space", "gettz_colon",
@@ -317,7 +317,7 @@ LOADS = ["gettz_name", "gettz_second", "gettz_space", "gettz_colon",
          "bundle", "gettz_bundle", "sibling", "sibling", "gettz_env",
          "gettz_env_colon", "gettz_localtime_abs", "gettz_localtime_rel",
          "gettz_localtime_colon", "tzfile_stream_forward_only",
-         "tzfile_stream_read_only"]
+         "tzfile_stream_read_only", "gettz_abs_blank", "tzfile_path_blank"]
 
 
 def gen_loads(rng, n):
@@ -638,6 +638,15 @@ class Loader(object):
                 return tz.gettz()
             finally:
                 self.world.set_tz(None)
+        if k in ("gettz_abs_blank", "tzfile_path_blank"):
+            # an absolute path with a blank in a directory name, next to a
+            # twin directory spelled with an underscore that holds OTHER data
+            # (the blank-to-underscore rewrite is for zone NAMES only)
+            p = "/sim/my zones/Area/Zone"
+            self.world.fs.add_file(p, self.data)
+            self.world.fs.add_file("/sim/my_zones/Area/Zone",
+                                   ZW.zone_bytes(ZW.simple_zone(23)))
+            return tz.gettz(p) if k == "gettz_abs_blank" else tz.tzfile(p)
         if k.startswith("gettz_localtime"):
             # gettz() with no name and no (or an empty) TZ setting reads the
             # system's local-time file: TZFILES, absolute or under TZPATHS
